@@ -359,10 +359,17 @@ func (e EvmEngine) genC11(r *Run) Step {
 		if r.Pct(12) {
 			amt = sh.Add(FX(int64(1 + r.Rng.IntN(50)))) // more than the sender holds: must be refused without effects
 		}
+		if r.Pct(8) {
+			amt = sdkmath.ZeroInt() // nothing to move: whatever the answer, no record may appear or change
+		}
 		return blk(pc("transferShares", val, fmt.Sprintf("$user%d", to), amt.String()))
 	case 10:
 		from := r.Rng.IntN(st.NUsers)
-		return blk(pc("transferFromShares", val, fmt.Sprintf("$user%d", from), fmt.Sprintf("$user%d", r.Rng.IntN(st.NUsers)), FX(int64(1+r.Rng.IntN(100))).String()))
+		famt := FX(int64(1 + r.Rng.IntN(100)))
+		if r.Pct(12) {
+			famt = sdkmath.ZeroInt() // needs no allowance: anybody could send it against anybody
+		}
+		return blk(pc("transferFromShares", val, fmt.Sprintf("$user%d", from), fmt.Sprintf("$user%d", r.Rng.IntN(st.NUsers)), famt.String()))
 	default:
 		// reward-producing blocks, sometimes with a validator missing (downtime slashing)
 		s := Step{Kind: "block", DtMs: 6000, N: 1 + r.Rng.IntN(6)}
